@@ -130,6 +130,8 @@ def run_check(prop, tier, only=None, jobs=14, show=None):
                     samples.append(obligation_record(u, p, r)); break
         unknown = []
         mach = [r for r in fails if machinery_failure(r)]
+        if mach and u.unannotated_loops(p):
+            mach = []      # arbitrary (havocked) state after a loop without contract reached a model: settled by replay / the bounded stand-in below
         if mach:
             undecided.append((u.name + ':' + p.target, 'check failed inside a contract/model expression (machinery, not a verdict): %s %s' % (mach[0].get('property'), mach[0].get('description'))))
             fails = [r for r in fails if not machinery_failure(r)]
